@@ -24,6 +24,8 @@ pub const STEAL: u8 = 6;
 pub const POP_IF: u8 = 7; // arg = residue the predicate rejects
 pub const REMOVE: u8 = 8; // arg = which known handle (monotone index map)
 pub const YIELD: u8 = 9;
+/// owner only: end of a phase, the schedule goes on with its next segment (sched::sync_point)
+pub const SYNC: u8 = 10;
 
 pub fn opname(op: u8) -> &'static str {
     match op {
@@ -370,6 +372,8 @@ pub fn run_spmc(case: &Case) -> Outcome {
             if op.0 == PUSH {
                 local.push_back(Box::new(ledger.tok(pushed)));
                 pushed += 1;
+            } else if op.0 == SYNC {
+                sched::sync_point();
             } else if let Some(t) = local.pop() {
                 mine.push(chk(&t, &bad_slot));
             }
@@ -441,6 +445,13 @@ pub fn run_spmc(case: &Case) -> Outcome {
             if op.0 == PUSH {
                 q.push(Box::new(ledger.tok(pushed)));
                 pushed += 1;
+            } else if op.0 == SYNC {
+                sched::sync_point();
+            } else if op.0 == POP && op.1 == 1 {
+                // the producer thread takes a value itself, like any consumer
+                if let Some(t) = q.pop() {
+                    mine.push(chk(&t, &bad_slot));
+                }
             } else {
                 sched::yield_now();
             }
@@ -877,12 +888,57 @@ fn strategy_spmc_aba() -> BoxedStrategy<Case> {
         .boxed()
 }
 
+/// the same ABA scenario with the schedule tied to the phases of the owner's program by
+/// SYNC operations instead of guessed point counts: head at slot `id` and tail at slot `p` of
+/// block B when the stealer has done its three loads; then the owner fills B, consumes it
+/// (B is freed), fills the next block (the block after it gets B's address from the LIFO
+/// allocator), consumes that one, pushes `q - 0` values into the new B and pops `id` of them:
+/// the head is (B, id) again with only q < p slots written. the stealer's stale
+/// compare-and-swap succeeds and claims [id, p)
+fn strategy_spmc_aba_exact() -> BoxedStrategy<Case> {
+    use crate::sched::Seg;
+    (0i64..24, 2usize..12, 0usize..10, 1u16..9, 0i64..2, 0u8..3)
+        .prop_map(|(id, a0, q0, r1, slack, variant)| {
+            // variant 0: Local / Steal API, the taker is steal_into (bulk_pop); 1: raw queue,
+            // bulk_pop; 2: raw queue, pop - there the head comes back to (B, id) with the slot
+            // `id` itself not written yet (q = id)
+            let raw = variant > 0;
+            let idu = id as usize;
+            let a = a0.min(31 - idu).max(2);
+            let p = idu + a;
+            let q = if variant == 2 { idu } else { idu + 1 + q0 % (a - 1) };
+            let pop = Op(POP, raw as u32, 0);
+            let mut owner = vec![Op(PUSH, 0, 0); a];
+            owner.push(Op(SYNC, 0, 0));
+            owner.extend(vec![Op(PUSH, 0, 0); 32 - p]);
+            owner.extend(vec![pop.clone(); 32 - idu]);
+            owner.extend(vec![Op(PUSH, 0, 0); 32]);
+            owner.extend(vec![pop.clone(); 32]);
+            owner.extend(vec![Op(PUSH, 0, 0); q]);
+            owner.extend(vec![pop; idu]);
+            owner.push(Op(SYNC, 0, 0));
+            // released by later pushes when the taker waits for its over-claimed slots
+            owner.extend(vec![Op(PUSH, 0, 0); a + 2 + slack as usize]);
+            let take = match variant {
+                0 => STEAL,
+                1 => BULK,
+                _ => POP,
+            };
+            let actors = vec![Actor { ctx: TH, role: 0, ops: owner }, Actor { ctx: TH, role: 1, ops: vec![Op(take, 0, 0), Op(take, 0, 0)] }];
+            let sched = vec![
+                Seg { run: 60_000, pick: 0, stall_ms: 0 },
+                Seg { run: r1, pick: 128, stall_ms: 0 },
+                Seg { run: 60_000, pick: 0, stall_ms: 0 },
+                Seg { run: 60_000, pick: 128, stall_ms: 0 },
+            ];
+            Case { fam: "q_spmc".into(), workers: 1, pool: 1, feat: 0, cfg: vec![raw as i64, id], actors, sched, weak: 0 }
+        })
+        .boxed()
+}
+
 pub fn strategy_spmc(g: &GenCfg) -> BoxedStrategy<Case> {
-    if g.thorough || true {
-        let plain = strategy_spmc_plain(g);
-        return prop_oneof![3 => plain, 1 => strategy_spmc_aba()].boxed();
-    }
-    strategy_spmc_plain(g)
+    let plain = strategy_spmc_plain(g);
+    prop_oneof![6 => plain, 1 => strategy_spmc_aba(), 1 => strategy_spmc_aba_exact()].boxed()
 }
 
 fn strategy_spmc_plain(g: &GenCfg) -> BoxedStrategy<Case> {
